@@ -196,15 +196,20 @@ macro_rules! ct_find_harness {
             let q: u8 = kani::any();
             kani::assume(q <= QMAX);
             let mut outside = false;
-            verif_each!(
-                [0, 1, 2, 3, 4, 5, 6, 7, 8, 9, 10, 11, 12, 13, 14, 15, 16],
-                c,
-                {
-                    if q as usize == c {
-                        outside = check(&tree, c as u8);
+            // case split on the query: every case calls the real function with a CONSTANT query, which CBMC decides by constant
+            // propagation; `break` keeps the cases from being merged into each other's path condition
+            'cases: {
+                verif_each!(
+                    [0, 1, 2, 3, 4, 5, 6, 7, 8, 9, 10, 11, 12, 13, 14, 15, 16],
+                    c,
+                    {
+                        if q as usize == c {
+                            outside = check(&tree, c as u8);
+                            break 'cases;
+                        }
                     }
-                }
-            );
+                );
+            }
             // vacuity guard: a query that is not a data point was answered
             kani::cover!(outside);
         }
@@ -212,7 +217,7 @@ macro_rules! ct_find_harness {
 }
 
 macro_rules! ct_radius_harness {
-    ($name:ident, $tree:ident, $data:ident, $n:expr, $idx:tt, $unw:expr) => {
+    ($name:ident, $tree:ident, $data:ident, $n:expr, $idx:tt, $radius:expr, $ri:expr, $unw:expr) => {
         #[kani::proof]
         #[kani::unwind($unw)]
         fn $name() {
@@ -261,24 +266,21 @@ macro_rules! ct_radius_harness {
             let tree = core::mem::ManuallyDrop::new($tree());
             let q: u8 = kani::any();
             kani::assume(q <= QMAX);
-            let s: u8 = kani::any();
-            kani::assume(s < 3);
             let mut some_not_all = false;
-            verif_each!(
-                [0, 1, 2, 3, 4, 5, 6, 7, 8, 9, 10, 11, 12, 13, 14, 15, 16],
-                c,
-                {
-                    if q as usize == c {
-                        if s == 0 {
-                            some_not_all = check(&tree, c as u8, 1.0, 1);
-                        } else if s == 1 {
-                            some_not_all = check(&tree, c as u8, 2.0, 2);
-                        } else {
-                            some_not_all = check(&tree, c as u8, 5.0, 5);
+            // case split on the query: every case calls the real function with a CONSTANT query, which CBMC decides by constant
+            // propagation; `break` keeps the cases from being merged into each other's path condition
+            'cases: {
+                verif_each!(
+                    [0, 1, 2, 3, 4, 5, 6, 7, 8, 9, 10, 11, 12, 13, 14, 15, 16],
+                    c,
+                    {
+                        if q as usize == c {
+                            some_not_all = check(&tree, c as u8, $radius, $ri);
+                            break 'cases;
                         }
                     }
-                }
-            );
+                );
+            }
             // vacuity guard: some but not all points are within the radius
             kani::cover!(some_not_all);
         }
@@ -292,5 +294,10 @@ ct_find_harness!(c04_ct_find_a_k3, verif_tree_a, DATA_A, 4, [0, 1, 2, 3], 3, 6);
 ct_find_harness!(c04_ct_find_b_k1, verif_tree_b, DATA_B, 6, [0, 1, 2, 3, 4, 5], 1, 8);
 ct_find_harness!(c04_ct_find_b_k2, verif_tree_b, DATA_B, 6, [0, 1, 2, 3, 4, 5], 2, 8);
 ct_find_harness!(c04_ct_find_b_k3, verif_tree_b, DATA_B, 6, [0, 1, 2, 3, 4, 5], 3, 8);
-ct_radius_harness!(c04_ct_radius_a, verif_tree_a, DATA_A, 4, [0, 1, 2, 3], 6);
-ct_radius_harness!(c04_ct_radius_b, verif_tree_b, DATA_B, 6, [0, 1, 2, 3, 4, 5], 8);
+//                  name                tree          data    n  positions           radius   unwind
+ct_radius_harness!(c04_ct_radius_a_r1, verif_tree_a, DATA_A, 4, [0, 1, 2, 3], 1.0, 1, 6);
+ct_radius_harness!(c04_ct_radius_a_r2, verif_tree_a, DATA_A, 4, [0, 1, 2, 3], 2.0, 2, 6);
+ct_radius_harness!(c04_ct_radius_a_r5, verif_tree_a, DATA_A, 4, [0, 1, 2, 3], 5.0, 5, 6);
+ct_radius_harness!(c04_ct_radius_b_r1, verif_tree_b, DATA_B, 6, [0, 1, 2, 3, 4, 5], 1.0, 1, 8);
+ct_radius_harness!(c04_ct_radius_b_r2, verif_tree_b, DATA_B, 6, [0, 1, 2, 3, 4, 5], 2.0, 2, 8);
+ct_radius_harness!(c04_ct_radius_b_r5, verif_tree_b, DATA_B, 6, [0, 1, 2, 3, 4, 5], 5.0, 5, 8);
